@@ -345,7 +345,7 @@ def run_pair(corr, lines, timeout=240, env_extra=None):
     """Run harness and Lean driver on the same op lines. Returns (c_out_lines, l_out_lines, c_stderr, c_rc)."""
     data = ("\n".join(lines) + "\n").encode()
     env = dict(os.environ)
-    env["ASAN_OPTIONS"] = "detect_leaks=1:abort_on_error=0:exitcode=77:allocator_may_return_null=1:hard_rss_limit_mb=6144"
+    env["ASAN_OPTIONS"] = "detect_leaks=1:abort_on_error=0:exitcode=77:allocator_may_return_null=1:hard_rss_limit_mb=1536"
     env["UBSAN_OPTIONS"] = "print_stacktrace=0:halt_on_error=0"
     if env_extra:
         env.update(env_extra)
@@ -377,7 +377,7 @@ def run_pair(corr, lines, timeout=240, env_extra=None):
 def run_c(corr, lines, timeout=240, env_extra=None):
     data = ("\n".join(lines) + "\n").encode()
     env = dict(os.environ)
-    env["ASAN_OPTIONS"] = "detect_leaks=1:abort_on_error=0:exitcode=77:allocator_may_return_null=1:hard_rss_limit_mb=6144"
+    env["ASAN_OPTIONS"] = "detect_leaks=1:abort_on_error=0:exitcode=77:allocator_may_return_null=1:hard_rss_limit_mb=1536"
     env["UBSAN_OPTIONS"] = "print_stacktrace=0:halt_on_error=0"
     if env_extra:
         env.update(env_extra)
@@ -464,15 +464,17 @@ def _first_diff(scripts, c_out, l_out):
     return None
 
 
-def shrink_script(corr, script, still_fails, max_rounds=6):
-    """delta-debugging over lines (ddmin-lite): drop chunks, then single lines."""
+def shrink_script(corr, script, still_fails, max_rounds=6, budget_s=150):
+    """delta-debugging over lines (ddmin-lite): drop chunks, then single lines. Stops after `budget_s` seconds (a script that makes the
+    implementation run away costs seconds per attempt), returning what it has by then."""
     cur = list(script)
+    t_end = time.time() + budget_s
     for _ in range(max_rounds):
         changed = False
         n = max(len(cur) // 2, 1)
-        while n >= 1:
+        while n >= 1 and time.time() < t_end:
             i = 0
-            while i < len(cur) and len(cur) > 1:
+            while i < len(cur) and len(cur) > 1 and time.time() < t_end:
                 cand = cur[:i] + cur[i + n:]
                 if cand and still_fails(cand):
                     cur = cand
